@@ -27,6 +27,7 @@ const (
 	lvElem           // slice element: Slice, Idx
 	lvArrElem        // element of array value located at Base
 	lvGlobal
+	lvOpaque // field of an opaque (non-repository) struct: loads are arbitrary, stores ignored
 )
 
 type LValue struct {
@@ -76,6 +77,7 @@ type State struct {
 	steps   int
 	ghost   map[string]*Term
 	frames  []*Frame
+	fresh   []freshObj
 }
 
 func (s *State) top() *Frame { return s.frames[len(s.frames)-1] }
@@ -98,6 +100,7 @@ func (s *State) clone() *State {
 		n.ghost[k] = v
 	}
 	n.trace = append([]string{}, s.trace...)
+	n.fresh = append([]freshObj{}, s.fresh...)
 	return n
 }
 
@@ -214,6 +217,10 @@ func structOf(t types.Type) (*types.Struct, bool) {
 // load reads the content of a location.
 func (x *Exec) load(s *State, lv *LValue) (*Term, error) {
 	switch lv.Kind {
+	case lvOpaque:
+		v := Var(x.eng.fresh("opq"), x.sortOf(lv.Typ))
+		s.assume(x.eng.typeInv(v, lv.Typ, x.mode, s.alloc))
+		return v, nil
 	case lvGlobal:
 		return x.heapGet(s, x.globalKey(lv.Global), x.sortOf(lv.Typ)), nil
 	case lvCell:
@@ -257,6 +264,8 @@ func (x *Exec) load(s *State, lv *LValue) (*Term, error) {
 // store writes v into a location; reports the heap component and object written (for frames).
 func (x *Exec) store(s *State, lv *LValue, v *Term) error {
 	switch lv.Kind {
+	case lvOpaque:
+		return nil
 	case lvGlobal:
 		x.heapSet(s, x.globalKey(lv.Global), v)
 		x.noteWrite(s, x.globalKey(lv.Global), nil)
@@ -289,6 +298,7 @@ func (x *Exec) store(s *State, lv *LValue, v *Term) error {
 			h := x.heapGet(s, key, SArr(SInt, x.sortOf(lv.Typ)))
 			x.heapSet(s, key, Store(h, lv.Ref, v))
 			x.noteWrite(s, key, lv.Ref)
+			x.checkInvAfterStore(s, lv.STyp, lv.Ref, x.curSite)
 			return nil
 		}
 		b, err := x.load(s, lv.Base)
